@@ -189,7 +189,7 @@ def r2(report, db, cg, S, M, type_ci, packet_ci):
                     continue
                 n += 1
                 a = [x for x in e.args if x[0] != 'sym'
-                     or x != ('sym', fi.params[0])]
+                     or x != ('sym', fi.all_params[0])]
                 src = a[-1] if a else None
                 okk = src is not None and src[0] == 'call' and any(
                     ev.res == src and any(t.name == 'read_packet'
